@@ -7,7 +7,7 @@ From SK Require Import model.C15_View proof.C15_View.
 From SK Require Import model.C16_Model model.C15_ViewObs proof.C15_ViewGraph.
 From SK Require Import proof.C16_Defs model.C15_Repr proof.C15_Repr.
 From SK Require Import model.C15_Side proof.C15_Side model.C15_Bulk proof.C15_Bulk.
-From SK Require Import proof.C15_Species.
+From SK Require Import proof.C15_Species proof.C15_Prune.
 Local Open Scope string_scope.
 
 (** ** 1. The store invariant *)
@@ -825,9 +825,9 @@ Print Assumptions C15_bulk_frame.
       remove_species(x, prune_orphans=False)  drops NOTHING (x stays);  with prune_orphans=True it may drop x, and nothing else;
       remove_rxn(e)                           may drop species of the removed reaction only;
       add_rxn / merge / assign_mol / set_mol_map drop nothing.
-    This bounds what a step MAY drop.  That an orphaned species of a removed reaction IS dropped (the must-drop direction, which
-    together with this theorem and [Inv] would make the species set exact also for labels that were ever kept) is not stated here:
-    see C15_remove_rxn_prunes if present below, else it is tested only (oracle: species = occurring + kept-and-not-reoccurred).
+    This bounds what a step MAY drop.  That an orphaned species of a removed reaction IS dropped (the must-drop direction) is
+    C15_remove_rxn_prunes / C15_remove_species_prunes below; the three together with [Inv] give: a species is present after a step
+    iff it occurs in a stored reaction, or it was present before, does not occur, and the step was not a removal touching it.
     Reading adopted by code, model and oracle: a kept species that ENTERS A REACTION AGAIN is an ordinary species — it goes when its
     last reaction goes ([ex_species_nonvacuous]). *)
 Theorem C15_species_shrink_only_where_allowed :
@@ -844,3 +844,16 @@ Proof.
           (conj merge_species_mono (conj assign_mol_species set_mol_map_species))))).
 Qed.
 Print Assumptions C15_species_shrink_only_where_allowed.
+
+(** the must-drop direction (audit A3-1): after remove_rxn, a species of the removed reaction is still in the species set IF AND
+    ONLY IF it still occurs in a stored reaction — whether or not it was ever kept ([ex_prunes_nonvacuous]: A -> B; remove_species A
+    keep; add A -> C as e2; remove_rxn e2 drops A and C, keeps B); after remove_species(x, prune_orphans=True), x is gone *)
+Theorem C15_remove_rxn_prunes : forall (s : net) (e : string) (s' : net) (rx : rxn),
+  Inv s -> edges s !! e = Some rx -> remove_rxn s e = (s', None) ->
+  forall x, x ∈ rxn_species rx -> (x ∈ species s' <-> exists e' rx', edges s' !! e' = Some rx' /\ x ∈ rxn_species rx').
+Proof. exact remove_rxn_prunes. Qed.
+Print Assumptions C15_remove_rxn_prunes.
+Theorem C15_remove_species_prunes : forall (s : net) (x : string) (s' : net),
+  remove_species s x true = (s', None) -> x ∉ species s'.
+Proof. exact remove_species_prunes. Qed.
+Print Assumptions C15_remove_species_prunes.
